@@ -43,7 +43,8 @@ RULE = (
     "1-6 workers x arrival policy (uniform, round-robin, starve, burst, eager) x failure plan x early-completing scripts x "
     "num_init_random (large: random suggestions; small: GP fitted incl. fantasising of pending entries) x "
     "max_size_data_for_model (default / explicit None / 3-25: down-sampling active) x model recomputed after every event or "
-    "only when the searcher does. "
+    "only when the searcher does x repeated reports of a level (0-15 %) x searcher saved / restored into a second scheduler in "
+    "mid-history (stopping / promotion with bayesopt). "
     "Distinct = digest of the sequence of (event kind, #observations, #pending entries) after every event; non-trivial = "
     "at least one event with both observations and pending entries present and at least one trial that left the running set."
 )
@@ -69,6 +70,15 @@ ASSUMPTIONS = [
     "max_size_data_for_model in effect is taken from the documented defaults (500 unless searcher_data='all'; an explicit None "
     "in search_options is dropped by check_and_merge_defaults and therefore also means the default); above the limit only "
     "'subset of the reference, at most max_size cases, some case at the highest level kept' is claimed",
+    "a script may report the level it has just reported once more with another value (5-15 % of the CONTINUE-answered reports in "
+    "3/4 of the asynchronous schedules with searcher_data rungs / all): the observation keeps the FIRST value of the run; not "
+    "generated for rungs_and_last (open candidate C14-F4: the unchanged library drops the last observation and raises on the next "
+    "report; consequences there carry the key suffix rungs_and_last_after_repeated_report_of_level) nor for synchronous Hyperband",
+    "in 40 % of the stopping / promotion schedules with searcher bayesopt the first experiment is drained (no new suggestions, "
+    "running trials end), the searcher is saved (get_state, pickled), restored (clone_from_state) and handed to a second "
+    "HyperbandScheduler(searcher=<clone>) which continues with new trials; ALL observations, before and after, are compared "
+    "under the original searcher's minimisation map; the restored searcher may or may not down-sample (clone_from_state does "
+    "not pass max_size_data_for_model on)",
     "bounds: <= 6 workers, <= 40 trials, max_t <= 30, <= 140 events per schedule; NaN / infinite metrics are not generated",
 ]
 CASE_TIMEOUT = 240
@@ -114,6 +124,17 @@ def floors(tier):
         "decided:rereport_changes_nothing": 300 * k,
         "decided:pending_registered": 10000 * k,
         "pending_fantasised_in_fit": 20 * k,
+        "decided:repeated_report_changes_nothing": 200 * k,
+        "decided:repeated_report_changes_nothing:stopping:rungs": 20 * k,
+        "decided:repeated_report_changes_nothing:stopping:all": 20 * k,
+        "decided:repeated_report_changes_nothing:promotion:rungs": 20 * k,
+        "decided:repeated_report_changes_nothing:promotion:all": 20 * k,
+        "repeated_report_of_selected_level": 100 * k,
+        "searcher_restores": 15 * k,
+        "searcher_restores:mode_max": 5 * k,
+        "searcher_restores:mode_min": 5 * k,
+        "decided:comparisons_after_searcher_restore:mode_max": 150 * k,
+        "decided:comparisons_after_searcher_restore:mode_min": 150 * k,
         "decided:model_data_equals_reference:rungs": 1500 * k,
         "decided:model_data_equals_reference:all": 1000 * k,
         "decided:model_data_equals_reference:rungs_and_last": 1500 * k,
@@ -235,6 +256,17 @@ def expand(spec):
     p["probe_model"] = rng.random() < 0.5 or ms == "small"
     if p["probe_model"] and p["searcher"] == "hypertune" and p["searcher_data"] != "rungs":
         p["gp_model"] = "gp_multitask"  # see above: the independent-GPs model cannot fantasise pending entries off rung levels
+    # repeated reports: a script may report the SAME level twice in a row with a different value (quick estimate, then the
+    # full validation score). Not generated for searcher_data='rungs_and_last' (the unchanged library loses observations / raises
+    # there: candidate finding C14-F4, reproducers set dup_rate explicitly) and not for the synchronous scheduler.
+    dr = rng.choice([0.0, 0.05, 0.1, 0.15])
+    p["dup_rate"] = 0.0 if (typ == "sync" or p["searcher_data"] == "rungs_and_last") else dr
+    # save / restore of the searcher in the middle of the history: get_state -> (pickle) -> clone_from_state -> second
+    # HyperbandScheduler(searcher=<clone>) which keeps feeding it results (GPMultiFidelitySearcher only: the other searchers do
+    # not provide a clone of their own class)
+    ra = rng.random() < 0.4
+    rk = rng.randint(12, max(13, int(p["max_events"] * 0.6)))
+    p["restore_at"] = rk if (ra and typ in ("stopping", "promotion") and p["searcher"] == "bayesopt") else None
     p.update({k: v for k, v in spec.items() if k != "seed" and not k.startswith("_")})
     return p
 
@@ -273,9 +305,43 @@ class ScriptVTuner(VTuner):
     """Virtual tuner whose training scripts may end before max_t (per-trial script length): such a trial
     completes (on_trial_complete) after its last report was answered CONTINUE."""
 
-    def __init__(self, *a, script_len=None, **k):
+    def __init__(self, *a, script_len=None, dup_rate=0.0, dup_seed=0, **k):
         super().__init__(*a, **k)
         self.script_len = {int(t): int(v) for t, v in (script_len or {}).items()}
+        self.dup_rate = dup_rate
+        self.dup_rng = random.Random(dup_seed)
+        self.dup_levels = set(tuple(x) for x in (self.p.get("dup_at") or []))  # explicit (trial, level) pairs (reproducers)
+        self.last_was_dup = False
+
+    def do_advance(self, tid):
+        self.last_was_dup = False
+        n = len(self.events)
+        super().do_advance(tid)
+        ev = self.events[-1] if len(self.events) > n else None
+        if ev is None or ev[0] != "result" or ev[4] != "CONTINUE":
+            return
+        t = self.trials[tid]
+        if t.status != "running":
+            return
+        if (tid, ev[3]) in self.dup_levels or (self.dup_rate and self.dup_rng.random() < self.dup_rate):
+            self._repeat_report(t, ev[3])
+
+    def _repeat_report(self, t, level):
+        """The script reports the level it has just reported once more, with another value."""
+        result = self.make_result(t, level)
+        result[self.p["metric"]] = result[self.p["metric"]] + 0.0137
+        self.last_was_dup = True
+        self._notify("pre_result", t, result)
+        decision = self.port.on_trial_result(t.trial, dict(result))
+        t.last_result = result
+        t.reports.append((t.run_no, level, result.get(self.p["metric"]), decision))
+        self.events.append(("result", t.trial_id, t.run_no, level, decision, "repeat"))
+        if decision in ("STOP", "PAUSE"):
+            self.port.on_trial_remove(t.trial)
+            t.status = "stopped" if decision == "STOP" else "paused"
+            self.running.remove(t.trial_id)
+        self._notify("post_result", t, result, decision)
+        self.last_was_dup = False
 
     def do_suggest(self):
         sugg = super().do_suggest()
@@ -302,6 +368,8 @@ class Monitor:
         self.fmap = min_map(p)
         self.first = {}       # tid -> {level: raw value at first report}
         self.later = {}       # tid -> {level: [raw values of re-reports]}
+        self.repeats = {}     # tid -> {level: [raw values of repeated reports of the level within the same run]}
+        self.restored = False  # the searcher was saved and restored (clone_from_state) earlier in this history
         self.maxlev = {}      # tid -> largest level reported
         self.exp = {}         # tid -> {level: mapped expected value}
         self.sync_rungs = {}  # tid -> levels at which a synchronous trial was paused
@@ -320,12 +388,18 @@ class Monitor:
         self.n_model_cmp = 0
 
     # -- book keeping from what the harness itself sent
-    def _record_report(self, t, level, value, decision):
+    def _record_report(self, t, level, value, decision, repeat=False):
         tid = str(t.trial_id)
         f = self.first.setdefault(tid, {})
         if level in f:
-            self.later.setdefault(tid, {}).setdefault(level, []).append(value)
-            self.o.count("rereported_level")
+            if repeat:
+                self.repeats.setdefault(tid, {}).setdefault(level, []).append(value)
+                self.o.count("repeated_report_of_level")
+                if level in self.exp.get(tid, {}):
+                    self.o.count("repeated_report_of_selected_level")
+            else:
+                self.later.setdefault(tid, {}).setdefault(level, []).append(value)
+                self.o.count("rereported_level")
             return False
         f[level] = value
         prev_max = self.maxlev.get(tid, 0)
@@ -344,6 +418,8 @@ class Monitor:
         return True
 
     def _violate(self, clause, what, detail, key=None):
+        if self.policy == "rungs_and_last" and self.repeats and clause in ("selected_levels_present", "no_other_levels", "value_equals_reported_metric"):
+            what += ":rungs_and_last_after_repeated_report_of_level"
         k = (what,) + tuple(key or ())
         if k in self.reported or self.per_mech.get(what, 0) >= 3:
             return
@@ -515,6 +591,11 @@ class Monitor:
         base = {"origin": origin, "max_size_data_for_model": self.limit, "cases_in_searcher_state": n_state, "cases_in_model_data": n_model,
                 "reference_changed_without_changing_its_size_since_last_model": cpu}
         subsampled = self.limit is not None and n_state > self.limit
+        if subsampled and self.restored and n_model == n_state:
+            # clone_from_state does not hand the state converter (max_size_data_for_model) to the restored searcher, which then
+            # fits to the full data set: not a statement about the data being wrong -> judged as 'no down-sampling' (and counted)
+            subsampled = False
+            o.count("restored_searcher_without_down_sampling")
 
         def judge(t, lv, v):
             """one case of the model data against the reference"""
@@ -610,7 +691,10 @@ class Monitor:
                 continue
             raw = first.get(lv)
             later = self.later.get(tid, {}).get(lv, [])
-            if any(close(a[lv], self.fmap(x)) for x in later):
+            reps = self.repeats.get(tid, {}).get(lv, [])
+            if any(close(a[lv], self.fmap(x)) for x in reps):
+                what = "observation_overwritten_by_repeated_report_of_level"
+            elif any(close(a[lv], self.fmap(x)) for x in later):
                 what = "observation_overwritten_by_rereported_level"
             elif p["mode"] == "max" and close(a[lv], raw):
                 what = "metric_not_mapped_to_minimisation:mode_max"
@@ -618,6 +702,8 @@ class Monitor:
                 what = "observation_value_of_other_level"
             else:
                 what = "observation_value_differs_from_reported_metric"
+            if self.restored and not what.startswith("observation_overwritten"):
+                what += ":after_searcher_restore"
             self._violate("value_equals_reported_metric", what,
                           dict(base, level=lv, observed=a[lv], expected=e[lv], reported_raw=raw, rereported_raw=later[:5]), (tid, lv))
 
@@ -640,15 +726,19 @@ class Monitor:
 
     def post_result(self, vt, t, result, decision):
         level = result["epoch"]
-        new = self._record_report(t, level, result["loss"], decision)
-        if not new:
+        repeat = bool(getattr(vt, "last_was_dup", False))
+        new = self._record_report(t, level, result["loss"], decision, repeat)
+        if repeat:
+            self.o.count("decided:repeated_report_changes_nothing")
+            self.o.count(f"decided:repeated_report_changes_nothing:{self.p['type']}:{self.policy}")
+        elif not new:
             self.o.count("decided:rereport_changes_nothing")
         if decision in ("STOP", "PAUSE"):
             self.ended += 1
             self.o.count("decision:" + decision)
             self.check(vt, "result_end", t.trial_id)
         else:
-            self.check(vt, "result" if new else "rereport", t.trial_id)
+            self.check(vt, "result" if new else ("repeat" if repeat else "rereport"), t.trial_id)
 
     def post_complete(self, vt, t):
         self.ended += 1
@@ -663,7 +753,7 @@ class Monitor:
 
 
 # ------------------------------------------------------------------------------------------ build + run
-def build(p, space, seed):
+def build(p, space, seed, **over):
     so = {"opt_maxiter": p["opt_maxiter"], "opt_nstarts": 1, "num_init_random": p["num_init_random"],
           "num_init_candidates": 30, "debug_log": False}
     if p.get("map_reward"):
@@ -690,7 +780,7 @@ def build(p, space, seed):
         bp["max_resource_attr"] = "epochs"
     if p["type"] == "dyhpo" and p.get("probability_sh") is not None:
         bp["rung_system_kwargs"] = {"probability_sh": p["probability_sh"]}
-    return gen.build_hyperband(space, bp, seed=seed)
+    return gen.build_hyperband(space, bp, seed=seed, **over)
 
 
 def run_case(spec):
@@ -712,48 +802,56 @@ def run_case(spec):
         if list(sched.rung_levels) != ref_levels:
             o.inconclusive("rung_levels_differ_from_documented_formula")  # C03 / C04 decide this
             ref_levels = list(sched.rung_levels)
-    searcher = sched.searcher
-    inner = getattr(searcher, "_searcher_int", None) if p["searcher"] == "dyhpo" else searcher
-    if inner is None or not hasattr(inner, "state_transformer"):
+    brackets_of = {}
+    fits = [0, 0]
+    cur = {}  # the searcher (wrapped multi-fidelity searcher for DyHPO) currently in use
+    mon_holder = {}
+
+    def attach(scheduler):
+        """read-only instance-level wraps of public methods of the scheduler / searcher in use: bracket of a trial; every
+        predictor the searcher obtains"""
+        searcher = scheduler.searcher
+        inner = getattr(searcher, "_searcher_int", None) if p["searcher"] == "dyhpo" else searcher
+        if inner is None or getattr(inner, "state_transformer", None) is None:
+            return False
+        cur["inner"] = inner
+        if p["type"] != "sync":
+            term = scheduler.terminator
+            orig_add = term.on_task_add
+
+            def on_task_add(trial_id, **kwargs):
+                if kwargs.get("new_config", True):
+                    brackets_of[str(trial_id)] = kwargs.get("bracket")
+                return orig_add(trial_id, **kwargs)
+
+            term.on_task_add = on_task_add
+        stf = inner.state_transformer
+        orig_fit = stf.fit
+        cur["orig_fit"] = orig_fit
+
+        def fit(**kwargs):
+            fits[0] += 1
+            try:
+                if stf.state.pending_evaluations and stf.state.trials_evaluations:
+                    fits[1] += 1
+            except Exception:  # noqa: BLE001
+                pass
+            predictor = orig_fit(**kwargs)
+            # the predictor the searcher itself just asked for: what is its model fitted to?
+            m_ = mon_holder.get("mon")
+            if m_ is not None:
+                m_.check_model(predictor, "searcher_fit")
+            return predictor
+
+        stf.fit = fit
+        return True
+
+    if not attach(sched):
         o.inconclusive("state_transformer_not_available")
         return o.result()
 
     def get_state():
-        return inner.state_transformer.state
-
-    # read-only instance-level wraps of public methods: bracket of a trial; was a model fitted (and with pending entries)?
-    brackets_of = {}
-    if p["type"] != "sync":
-        term = sched.terminator
-        orig_add = term.on_task_add
-
-        def on_task_add(trial_id, **kwargs):
-            if kwargs.get("new_config", True):
-                brackets_of[str(trial_id)] = kwargs.get("bracket")
-            return orig_add(trial_id, **kwargs)
-
-        term.on_task_add = on_task_add
-    fits = [0, 0]
-    stf = inner.state_transformer
-    orig_fit = stf.fit
-
-    mon_holder = {}
-
-    def fit(**kwargs):
-        fits[0] += 1
-        try:
-            if stf.state.pending_evaluations and stf.state.trials_evaluations:
-                fits[1] += 1
-        except Exception:  # noqa: BLE001
-            pass
-        predictor = orig_fit(**kwargs)
-        # the predictor the searcher itself just asked for: what is its model fitted to?
-        m_ = mon_holder.get("mon")
-        if m_ is not None:
-            m_.check_model(predictor, "searcher_fit")
-        return predictor
-
-    stf.fit = fit
+        return cur["inner"].state_transformer.state
 
     curves = gen.Curves(p["curves"], spec["seed"] + 1, p["max_t"])
     holder = {}
@@ -766,24 +864,78 @@ def run_case(spec):
     mon = Monitor(o, p, get_state, ref_levels, brackets_of)
     mon_holder["mon"] = mon
     if p.get("probe_model"):
-        mon.probe_fn = lambda: orig_fit(skip_optimization=True)
+        mon.probe_fn = lambda: cur["orig_fit"](skip_optimization=True)
         o.count("schedules_with_model_probe")
+    restore_at = p.get("restore_at") if not p.get("order") or p.get("restore_at_explicit") else None
     vp = {
         "n_workers": p["n_workers"], "max_t": p["max_t"], "metric": "loss", "resource_attr": "epoch",
         "policy": p["policy"], "seed": spec["seed"] + 2, "max_trials": p["max_trials"],
-        "max_events": p["max_events"], "order": p.get("order"), "fail": p.get("fail"),
-        "max_resource_attr": "epochs" if p["use_mra"] else None, "checkpointing": p["checkpointing"],
+        "max_events": p["max_events"] if not restore_at else min(restore_at, p["max_events"]), "order": p.get("order"), "fail": p.get("fail"),
+        "max_resource_attr": "epochs" if p["use_mra"] else None, "checkpointing": p["checkpointing"], "dup_at": p.get("dup_at"),
     }
-    vt = ScriptVTuner(Port(sched), vp, value_fn, monitors=[mon], script_len=p.get("script_len"))
+    vt = ScriptVTuner(Port(sched), vp, value_fn, monitors=[mon], script_len=p.get("script_len"),
+                      dup_rate=p.get("dup_rate", 0.0), dup_seed=spec["seed"] + 77)
     holder["vt"] = vt
     mon.check(vt, "initial")
     vt.run()
+    all_events = vt.events
+    if restore_at and not vt.raised:
+        # ---- the experiment ends: no new suggestions, running trials run until they stop / pause / complete / fail
+        vt.p["max_suggest"] = vt.num_suggest_calls
+        vt.order = None
+        guard = 0
+        while vt.running and guard < 600 and vt.step():
+            guard += 1
+        if vt.running or vt.raised:
+            if not vt.raised:
+                o.inconclusive("first_experiment_did_not_drain")
+        else:
+            # ---- save, restore, second scheduler around the restored searcher
+            import pickle
+
+            old = sched.searcher
+            try:
+                state = old.get_state()
+                try:
+                    state = pickle.loads(pickle.dumps(state))
+                    o.count("restore_state_pickled")
+                except Exception:  # noqa: BLE001
+                    o.count("restore_state_not_picklable")
+                clone = old.clone_from_state(state)
+                sched2 = build(p, space, (spec["seed"] + 1) % (2**31), searcher=clone)
+            except Exception as e:  # noqa: BLE001
+                o.violate("no_raise", f"{cell}:raised:searcher_restore:{type(e).__name__}", {"error": repr(e)[:400]})
+                sched2 = None
+            if sched2 is not None and attach(sched2):
+                mon.restored = True
+                o.count("searcher_restores")
+                o.count("searcher_restores:mode_" + p["mode"])
+                vp2 = dict(vp, seed=spec["seed"] + 3, max_events=max(10, p["max_events"] - vt.n_events), order=None)
+                vt2 = ScriptVTuner(Port(sched2), vp2, value_fn, monitors=[mon], script_len=p.get("script_len"),
+                                   dup_rate=p.get("dup_rate", 0.0), dup_seed=spec["seed"] + 78)
+                for tid_, t_ in vt.trials.items():
+                    if t_.status == "paused":
+                        t_.status = "stopped"  # abandoned with the first experiment: the second scheduler does not know them
+                    vt2.trials[tid_] = t_
+                holder["vt"] = vt2
+                mon.check(vt2, "restore")
+                n_before = mon.n_cmp
+                vt2.run()
+                o.count("decided:comparisons_after_searcher_restore", mon.n_cmp - n_before)
+                o.count(f"decided:comparisons_after_searcher_restore:mode_{p['mode']}", mon.n_cmp - n_before)
+                all_events = vt.events + [("restore",)] + vt2.events
+                vt = vt2
     if vt.raised:
         if vt.raised[1] == "resume_of_non_paused":
             # protocol derailed by the scheduler (C04 / C13 decide this); what was compared so far stands
             o.inconclusive("resume_of_non_paused_trial")
         else:
-            o.violate("no_raise", f"{cell}:raised:{vt.raised[0]}:{vt.raised[1]}",
+            mech = f"{cell}:raised:{vt.raised[0]}:{vt.raised[1]}"
+            if mon.policy == "rungs_and_last" and mon.repeats:
+                mech += ":rungs_and_last_after_repeated_report_of_level"
+            if mon.restored:
+                mech += ":after_searcher_restore"
+            o.violate("no_raise", mech,
                       {"raised": vt.raised, "rung_levels": ref_levels, "max_t": p["max_t"],
                        "params": {k: p.get(k) for k in ("register_pending_myopic", "checkpointing", "use_mra", "brackets", "mode", "num_init_random")}})
     if fits[0]:
@@ -799,16 +951,16 @@ def run_case(spec):
         o.count("mode_max")
     if p["use_mra"]:
         o.count("max_resource_attr")
-    for ev in vt.events[-60:]:
+    for ev in all_events[-60:]:
         o.ev(*ev)
     o.set_sig(mon.sig, nontrivial=mon.both and mon.ended > 0)
     o.sample = {
         "params": {k: p.get(k) for k in ("type", "searcher", "searcher_data", "register_pending_myopic", "mode", "map_reward", "grace_period",
                                          "reduction_factor", "rung_increment", "rung_levels", "bracket_rungs", "max_t", "brackets",
                                          "rung_system_per_bracket", "curves", "n_workers", "policy", "use_mra", "checkpointing",
-                                         "num_init_random", "fail", "script_len")},
-        "rung_levels": ref_levels, "events": len(vt.events), "state_comparisons": mon.n_cmp, "gp_fit_calls": fits[0],
+                                         "num_init_random", "fail", "script_len", "dup_rate", "restore_at")},
+        "rung_levels": ref_levels, "events": len(all_events), "state_comparisons": mon.n_cmp, "gp_fit_calls": fits[0],
         "model_data_comparisons": mon.n_model_cmp, "max_size_data_for_model": mon.limit, "probe_model": bool(p.get("probe_model")),
-        "first_events": [list(e) for e in vt.events[:14]], "trace": mon.sig[:14],
+        "restored": mon.restored, "first_events": [list(e) for e in all_events[:14]], "trace": mon.sig[:14],
     }
     return o.result()
